@@ -105,6 +105,9 @@ type vfCapture struct {
 	Body       []byte
 	ProtoMajor int
 	Trailer    http.Header
+	// ContentLength and TransferEncoding as the server's HTTP stack saw them
+	ContentLength    int64
+	TransferEncoding []string
 }
 
 // vfCaptureServer records every request and answers with a canned response.
@@ -119,7 +122,7 @@ func vfStartCaptureServer(respond func(w http.ResponseWriter, r *http.Request, b
 	cs := &vfCaptureServer{byName: map[string][]*vfCapture{}, Respond: respond}
 	handler := http.HandlerFunc(func(w http.ResponseWriter, r *http.Request) {
 		body, _ := io.ReadAll(r.Body)
-		c := &vfCapture{Method: r.Method, Path: r.URL.Path, RawQuery: r.URL.RawQuery, Header: r.Header.Clone(), Body: body, ProtoMajor: r.ProtoMajor, Trailer: r.Trailer.Clone()}
+		c := &vfCapture{Method: r.Method, Path: r.URL.Path, RawQuery: r.URL.RawQuery, Header: r.Header.Clone(), Body: body, ProtoMajor: r.ProtoMajor, Trailer: r.Trailer.Clone(), ContentLength: r.ContentLength, TransferEncoding: append([]string(nil), r.TransferEncoding...)}
 		name := r.Header.Get("X-Test-Case-Name")
 		cs.mu.Lock()
 		cs.byName[name] = append(cs.byName[name], c)
